@@ -403,4 +403,32 @@ theorem crossing_closes_report_peer_code :
     c.now = 0 ∧ c.closeCode = some 4001 ∧ c.frames = [.close 1000] ∧ c.exc = none ∧ c.trClosing = true := by
   decide +kernel
 
+/-! ## the autoclose inside receive() does not wait for the transport to drain -/
+
+/-- server `close(drain=False)`: after the CLOSE frame is written, close() never parks in `payload_writer.drain()`
+(pc `closeDrain2`), whatever the back-pressure — it goes straight on to the `_close_wait` / `_closing` part. -/
+theorem srv_close_nodrain_skips_drain (s : St) (t : Tid) (h : (getT s t).cdrain = false) :
+    srvCloseAfterFrame s t = srvCloseAfterDrain s t := by
+  unfold srvCloseAfterFrame
+  simp [h]
+
+/-- server receive() that reads the peer's CLOSE with autoclose on calls `close(drain=False)` -/
+theorem srv_autoclose_uses_nodrain (s : St) (t : Tid) (c : Nat) (hs : s.cfg.side = .server)
+    (hc : s.closed = false) (ha : s.cfg.autoclose = true) :
+    (recvGot s t (.ok (.close c))).1 =
+      recvNestedClose (srvSetClosing s c) t Gen.C13.codeOk false (.msg (.close c)) := by
+  unfold recvGot
+  simp [hs, hc, ha]
+
+/-- **Peer sends CLOSE but does not read (kernel-checked run).** Server, autoclose on, default writer limit, transport
+write-paused before the peer's CLOSE arrives: receive() returns the CLOSE message in the very step in which it consumes
+it (t = 0), our CLOSE frame is written, the peer's code is reported and the transport is asked to close — nothing waits
+for the drain. -/
+theorem peer_close_while_write_paused_is_not_blocked :
+    let cfg : Cfg := { side := .server, limit := 65536, closeTimeout := 1500 }
+    let s := run (init cfg) [.pauseW, .call 0 .recv, .tick, .peer (.close 4001), .tick]
+    s.paused = true ∧ (getT s 0).outcome = some (.recv (.msg (.close 4001))) ∧ s.frames = [.close 1000] ∧
+    s.closeCode = some 4001 ∧ s.closed = true ∧ s.trClosing = true ∧ s.now = 0 := by
+  decide +kernel
+
 end Aio.C13
